@@ -767,7 +767,8 @@ Section Sim.
         match goal with |- context [bind_params ?ps 0 args ?acc] =>
           assert (Hacc : fok x acc); [|(destruct (bind_params ps 0 args acc) as [local|] eqn:Eb)] end.
         { apply Forall_app. split.
-          - destruct (lookup frA "inputs") eqn:El; constructor; [|constructor]. cbn [snd]. exact (lookup_vok x frA "inputs" v FA El).
+          - destruct (lookup_frame scope "inputs"); [constructor|].  (* F9 repaired *)
+            destruct (lookup frA "inputs") eqn:El; constructor; [|constructor]. cbn [snd]. exact (lookup_vok x frA "inputs" v FA El).
           - destruct (lam_name st id); [|constructor]. destruct (lookup_frame scope s); constructor; [|constructor].
             exact Hthis. }
         2:{ apply Hsame; reflexivity. }
